@@ -102,11 +102,11 @@ L2_NOTE = ("Real anndb server processes (cmd/anndb's main with the verif hooks w
            "crash = SIGKILL; zero-group snapshots are requested through the verif hook instead of waiting for 5000 entries; views are read after a bounded quiescence wait.")
 CHECKS.update({
     "C14": dict(
-        text="Catalogue.tla models the catalogue state machine over the zero group's log with snapshots, restores and restarts, and the switches RestoreMode / WireFirst (TLC: every node equals the replay of the log it applied - holds in the repaired positions, counterexamples for add-only restore, for a restore that keeps the replica sets of known datasets, and for starting the apply loop before the consumer is wired). Nine scenarios run on three to five real server processes - create / delete through different nodes, kill -9 and restart of a follower and of the bootstrap node, with the consumer wired late (gate), after a zero-group snapshot (with descriptor reads before it), after a node left, a follower that was down while datasets were created and deleted and the logs compacted and that catches up through a snapshot installed into the catalogue it already holds, a node leaving while a member is down (with three and with four nodes, so that the replica-set changes are committed behind the absent member and reach it only through the snapshot), a lost join hand-shake - and ClusterViewTrace compares every node's List() with what the acknowledged operations imply (ids, dimension, partitions, replica sets identical on all nodes, also after restart).",
+        text="Catalogue.tla models the catalogue state machine over the zero group's log with snapshots, restores and restarts, and the switches RestoreMode / WireFirst (TLC: every node equals the replay of the log it applied - holds in the repaired positions, counterexamples for add-only restore, for a restore that keeps the replica sets of known datasets, and for starting the apply loop before the consumer is wired). Ten scenarios run on three to five real server processes - create / delete through different nodes, kill -9 and restart of a follower and of the bootstrap node, with the consumer wired late (gate), after a zero-group snapshot (with descriptor reads before it), after a node left, a follower that was down while datasets were created and deleted and the logs compacted and that catches up through a snapshot installed into the catalogue it already holds, a node leaving while a member is down (with three and with four nodes, so that the replica-set changes are committed behind the absent member and reach it only through the snapshot), a lost join hand-shake - and ClusterViewTrace compares every node's List() with what the acknowledged operations imply (ids, dimension, partitions, replica sets identical on all nodes, also after restart).",
         note=L2_NOTE + "",
         technique="TLA+ model checking (TLC) + scenarios on real server processes + TLC trace validation of every node's catalogue view", ref="5/C14"),
     "C20": dict(
-        text="Membership.tla models the address book fed by the membership log, the join hand-shake, compaction and restart, with the switches SnapshotHasBook / BootHasAddr (TLC: a caught-up member lists exactly the members with usable addresses - holds in the repaired positions, counterexamples for both shipped positions; the empty bootstrap address was found by TLC first and then confirmed on real servers). The same real-server scenarios, including a join whose hand-shake is lost on every address (the node must report the failure - if it claims to be ready the join counts as acknowledged and every member has to list it), a join list whose first address is dead, a retry, and a joiner that is killed after the members recorded it but before it could report (the unacknowledged joiner may be listed; once the restarted process reports, it must be); ClusterViewTrace compares every node's ListNodes() with the acknowledged joins and removals, including after restart from a compacted log.",
+        text="Membership.tla models the address book fed by the membership log, the join hand-shake, compaction and restart, with the switches SnapshotHasBook / BootHasAddr / ForgetClientOnRemove (TLC: a caught-up member lists exactly the members with usable addresses, and no member holds a transport client on a closed connection for another member - holds in the repaired positions, counterexamples for the three shipped positions; the empty bootstrap address was found by TLC first and then confirmed on real servers). The same real-server scenarios, including a join whose hand-shake is lost on every address (the node must report the failure - if it claims to be ready the join counts as acknowledged and every member has to list it), a join list whose first address is dead, a retry, a member that is removed and joins again under the same id (with writes and searches through every node before and after), and a joiner that is killed after the members recorded it but before it could report (the unacknowledged joiner may be listed; once the restarted process reports, it must be); ClusterViewTrace compares every node's ListNodes() with the acknowledged joins and removals, including after restart from a compacted log.",
         note=L2_NOTE, technique="TLA+ model checking (TLC) + scenarios on real server processes + TLC trace validation of every node's membership view", ref="5/C20"),
 })
 
